@@ -114,6 +114,9 @@ func (k Keeper) fulfillBetByParticipationQueue(
 			if err != nil {
 				return err
 			}
+			// the carried rounding remainder can push the calculated amount below zero or above what is
+			// left of the bet, a fulfillment takes neither a negative amount nor more than the remaining bet amount.
+			betAmountToFulfill = sdkmath.MinInt(sdkmath.MaxInt(betAmountToFulfill, sdkmath.ZeroInt()), fInfo.betAmount)
 
 			// if the available liquidity is less than remaining payout profit that
 			// need to be paid, we should use all of available liquidity pull for the calculations.
